@@ -429,6 +429,9 @@ func init() {
 		}
 		writerQueueK1(rep, m, r, 10*n)
 		for i := 0; i < n; i++ {
+			if rep.outOfTime() {
+				break
+			}
 			hseed := r.Int63()
 			hr := rand.New(rand.NewSource(hseed))
 			cfg := gen.PickConfig(hr)
@@ -468,6 +471,9 @@ func init() {
 		// background writer is idle when Commit starts: the commit adds no meta pages, its first sync request
 		// reaches the writer without any page write
 		for i := 0; i < n/4+3; i++ {
+			if rep.outOfTime() {
+				break
+			}
 			hseed := r.Int63()
 			hr := rand.New(rand.NewSource(hseed))
 			cfg := engine.Config{PageSize: 1024, MaxSize: []uint64{0, 64 * 1024, 256 * 1024}[hr.Intn(3)]}
@@ -492,6 +498,9 @@ func init() {
 		// area), followed by transactions that are rolled back, closed or committed: every crash point must still
 		// recover the last committed state
 		for i := 0; i < n/5+3; i++ {
+			if rep.outOfTime() {
+				break
+			}
 			hseed := r.Int63()
 			hr := rand.New(rand.NewSource(hseed))
 			cfg := engine.Config{PageSize: 1024, MaxSize: uint64(64+hr.Intn(16)) * 1024, InitMetaArea: uint32(hr.Intn(2) * 2)}
